@@ -972,7 +972,6 @@ class IteratorProxy(BaseProxy):
         return self._callmethod('close', args)
 
 
-@add_proxy_methods('__getattribute__')
 class NamespaceProxy(BaseProxy):
     def __getattr__(self, key):
         if key[0] == '_':
